@@ -1,4 +1,6 @@
 """C09 restart intensity limit."""
+from checks import supmachine as sm
+
 
 IMPORTS = "From Ergo Require Import Common.Base Sup.Intensity Sup.IntensityCases.\nLocal Open Scope Z_scope."
 
@@ -6,7 +8,10 @@ IMPORTS = "From Ergo Require Import Common.Base Sup.Intensity Sup.IntensityCases
 def run(c):
     c.proofs("theories/Properties/C09.v", clean=(c.tier == "thorough"))
     n = 400 if c.tier == "quick" else 6000
-    if c.replay:
+    kind = sm.replay_kind(c)
+    if c.replay and (kind.startswith("machine") or kind.startswith("e2e")):
+        out = None
+    elif c.replay:
         out = c.harness("sup", ["intensity", "-replay", c.replay])
     else:
         out = c.harness("sup", ["intensity", "-n", str(n)])
@@ -19,6 +24,11 @@ def run(c):
             keep = list(c.broken)
             c.cases("intensity-search", out, IMPORTS, "icase", corr=[], spec=["spec_ok"], premise=["premise_ok"])
             c.broken = keep + [b for b in c.broken if b not in keep]
+    # machine part: on "exceeded" all running children are stopped and the supervisor terminates with the
+    # restarts-exceeded reason (real supOFO/supARFO/supSOFO vs Sup/Machine.v, and the real node)
+    sm.machine(c, "machine", spec=["spec_gives_up"], premise=["premise_gave_up"], n_quick=1000, n_thorough=12000)
+    sm.e2e(c, "c09", spec=["spec_e2e_exceeded", "spec_e2e_prescribed"], premise=["premise_e2e_exceeded"], n_quick=12, n_thorough=200)
+    c.assumptions += sm.ASSUMPTIONS
     c.assumptions += [
         "wall clock (time.Now().UnixMilli) non-decreasing between successive restarts of one supervisor",
         "clock advance is simulated by shifting the recorded timestamps into the past (exactly equivalent for a function of differences; the model is nevertheless compared on the raw values)",
